@@ -39,6 +39,7 @@ def run(ctx):
     ctx.rule(cc.manifest_filter, "R-C09-manifest-exact", prog.func("command_line.signals_to_torch_feat_dir"))
     ctx.rule(config_syntax)
     ctx.rule(seed)
+    ctx.rule(seed_sources)
     ctx.rule(torch_twins)
     ctx.rule(torch_port_geometry)
     ctx.rule(torch_port_spectrum)
@@ -670,6 +671,25 @@ def seed(ctx):
     tool = prog.func("command_line.signals_to_torch_feat_dir")
     cc.base_seed(ctx, R, tool, ds)
     cc.seed_inputs_deterministic(ctx, R, tool, ds)
+
+
+def seed_sources(ctx, R="R-C09-seed"):
+    prog = ctx.prog
+    # every seeding call of both tools: the seed is not computed from a value that differs between interpreter processes
+    # (str hashes are salted per process, id() is an address); the fallback for a missing --seed may of course be random
+    for fq in ("command_line.compute_feats_from_kaldi_tables", "command_line.signals_to_torch_feat_dir"):
+        tf = prog.func(fq)
+        for c in astq.func_calls(tf):
+            q = prog.qualify(tf.module, c.func, tf) or ""
+            if q not in ("numpy.random.seed", "torch.manual_seed", "random.seed") or not c.args:
+                continue
+            exprs = [c.args[0]]
+            if isinstance(c.args[0], ast.Name):
+                exprs += [n_.value for n_ in tf.body_nodes() if isinstance(n_, ast.Assign) and any(astq.is_name(t_, c.args[0].id) for t_ in n_.targets)]
+            badc = [astq.text(x) for e_ in exprs for x in ast.walk(e_) if isinstance(x, ast.Call) and isinstance(x.func, ast.Name) and x.func.id in ("hash", "id")]
+            ctx.check(not badc, R, tf, c, "%s: a seed is not computed from a per-process value (salted hash, id)" % tf.name,
+                      "%s seeds a generator with %s, which contains %s: Python salts str hashes per interpreter process, so two invocations with the same --seed "
+                      "draw different noise" % (tf.name, astq.text(c.args[0])[:60], ", ".join(badc)), robust=True)
 
 
 def _in(body, node):
